@@ -223,6 +223,45 @@ func runC17(t *testing.T, seed uint64, m *Mask) *Report {
 			}
 		}
 		simrt.WaitCond(func() bool { return done == live })
+		// messages without content: a secure call with no argument, and a reply without a result that the caller
+		// asked to be encrypted.  There is no plaintext to hide, but the key check applies all the same
+		if !redial {
+			for j := 0; j < e.Gen.Intn(3); j++ {
+				var res []byte
+				if e.Gen.Chance(0.5) {
+					ran := e.Probes["blank-handler-ran"]
+					var arg interface{}
+					if e.Gen.Chance(0.5) {
+						arg = []byte{}
+					}
+					cmd := sess.Call(rt.Blank, arg, &res, erpc.WithBodyCodec('j'), secure.WithSecureMeta())
+					stt := cmd.Status()
+					if sameKey && (!stt.OK() || string(res) != "blank:0:") {
+						e.Fail("C17/secure-message-failed", "secure call without an argument (%s): %v, result %q", rep.Cell, stt, res)
+					}
+					if !sameKey {
+						if e.Probes["blank-handler-ran"] != ran {
+							e.Fail("C17/handler-ran-with-wrong-key", "secure call without an argument (%s): the handler was invoked although the keys differ", rep.Cell)
+						}
+						if stt.OK() || stt.Code() != statCode {
+							e.Fail("C17/wrong-key-status", "secure call without an argument (%s): caller got %v, want the plugin's code %d", rep.Cell, stt, statCode)
+						}
+					}
+					e.Probe("c17-secure-call-without-argument")
+				} else {
+					arg := []byte("void-arg")
+					cmd := sess.Call(rt.Void, &arg, &res, erpc.WithBodyCodec('j'), secure.WithAcceptSecureMeta(true))
+					stt := cmd.Status()
+					if sameKey && (!stt.OK() || len(res) != 0) {
+						e.Fail("C17/secure-message-failed", "plain call with an encrypted reply without a result (%s): %v, result %q", rep.Cell, stt, res)
+					}
+					if !sameKey && stt.OK() {
+						e.Fail("C17/wrong-key-status", "plain call, reply without a result encrypted under a different key (%s): the caller got OK", rep.Cell)
+					}
+					e.Probe("c17-secure-reply-without-result")
+				}
+			}
+		}
 		simrt.WaitQuiescent()
 		e.CheckSettled("C17/task-stuck-at-quiescence", rep.Cell)
 		// wire taps of every connection between the two peers, both directions
